@@ -225,7 +225,7 @@ class _G:
         first = True
         for pr in E.explore(body, stats=col.stats):
             if pr.exc is not None:
-                col.fail(site, "exception", witness=dict(exc=repr(pr.exc)), desc="raised %r" % (pr.exc,))
+                col.fail(site, "exception", witness=dict(exc=repr(pr.exc), model=E.model_dict(_m(pr.ctx))), desc="raised %r" % (pr.exc,))
                 continue
             col.path()
             if first:
@@ -323,18 +323,29 @@ def replay(v):
         got = int(rj._comb(n, w["k"]))
         return got != math.comb(n, w["k"]), "_comb(%d,%d)=%d want %d" % (n, w["k"], got, math.comb(n, w["k"]))
     if k == "exception":
-        m = w.get("model") or {}
+        # the engine's table reads are bounds-checked, numba's are not: an out-of-range read shows up here as an
+        # exception and on the jitted code as a wrong value -- replay the value-level property for the model's input
+        m = w.get("model") or v.get("model") or {}
+        c = v["config"]
         try:
-            P = v["config"]["P"]
+            if g == "grid":
+                n, kk = int(m.get("n", 0)), int(m.get("k", c["klo"]))
+                a, b = int(rj.comb(n, kk)), int(rj.comb_with_replacement(n, kk))
+                wa, wb = math.comb(n, kk), (math.comb(n + kk - 1, kk) if n + kk > 0 else None)
+                return a != wa or (wb is not None and b != wb), "comb(%d,%d)=%d (exact %d); comb_with_replacement=%d (exact %s)" % (n, kk, a, wa, b, wb)
+            P = c["P"]
             if g == "index":
-                gg = rnp.array([int(m.get("a%d" % i, 0)) for i in range(P)])
-                idx = rj.genotype_alleles_as_index(gg)
-                rj.index_as_genotype_alleles(idx, P)
-            else:
-                rj.index_as_genotype_alleles(int(m.get("i", 0)), P)
+                gg = [int(m.get("a%d" % i, 0)) for i in range(P - 1)] + [c["top"]]
+                gg = sorted(gg)
+                idx = int(rj.genotype_alleles_as_index(rnp.array(gg)))
+                back = [int(x) for x in rj.index_as_genotype_alleles(_order_index(gg), P)]
+                return idx != _order_index(gg) or back != gg, "index(%s)=%d (VCF rank %d); index_as_genotype_alleles(rank)=%s" % (gg, idx, _order_index(gg), back)
+            i = int(m.get("i", 0))
+            got = [int(x) for x in rj.index_as_genotype_alleles(i, P)]
+            want = list(M.vcf_order(c["A"], P)[i])
+            return got != want, "index %d -> %s expected %s" % (i, got, want)
         except Exception as e:
             return True, "real code raised %r" % (e,)
-        return False, "no exception on the real code"
     if k == "g-array":
         from mchap.calling import utils as ru
         obs = rnp.array(w["obs"])
